@@ -99,10 +99,328 @@ def _unsinc(e):
     return e.replace(lambda x: isinstance(x, sp.sinc), lambda x: sp.sin(x.args[0]) / x.args[0])
 
 
+def _split_masked(e):
+    """value = factor * Piecewise((B, ~zero), (Piecewise((A, zero), (0, True)), True)) -> ((A, zero), B, ~zero) without simplification"""
+    fac, pw = sp.Integer(1), e
+    if e.is_Mul:
+        pws = [a for a in e.args if isinstance(a, sp.Piecewise)]
+        if len(pws) != 1:
+            return None
+        pw = pws[0]
+        fac = sp.Mul(*[a for a in e.args if a is not pw])
+    if not isinstance(pw, sp.Piecewise) or len(pw.args) != 2:
+        return None
+    (b_val, b_cond), (rest, _) = pw.args
+    if not isinstance(rest, sp.Piecewise) or len(rest.args) != 2:
+        return None
+    (a_val, a_cond), _ = rest.args
+    return (fac * a_val, a_cond), fac * b_val, b_cond
+
+
+def stokes_lemmas(chk, fkey):
+    """the two facts of calculus behind the edge formula, checked by computer algebra (not by reading the code):
+    (L1) G(r) = i q / |q|^2 exp(-i q.r) has divergence exp(-i q.r);  (L2) the integral over t in [0,1] of exp(-i (a + t b)) is
+    exp(-i (a + b/2)) sin(b/2)/(b/2) -- so the flux of G through an edge from v to v+e with (normal x length) nu is
+    i (q.nu)/|q|^2 exp(-i q.m) sinc(q.e/2), m the midpoint."""
+    x, y, z, a, b, c = sp.symbols("x y z a b c", real=True)
+    q2 = a * a + b * b + c * c
+    ph = sp.exp(-sp.I * (a * x + b * y + c * z))
+    G = [sp.I * a / q2 * ph, sp.I * b / q2 * ph, sp.I * c / q2 * ph]
+    div = sp.simplify(sp.diff(G[0], x) + sp.diff(G[1], y) + sp.diff(G[2], z) - ph)
+    chk.record("lemma:divergence_of_G_is_the_integrand", fkey, "proved" if div == 0 else "refuted", "sympy-differentiation",
+               detail="div (i q/|q|^2 exp(-i q.r)) - exp(-i q.r) == 0", model={})
+    al, be, t = sp.symbols("alpha beta t", real=True)
+    anti = sp.exp(-sp.I * (al + t * be)) / (-sp.I * be)
+    d1 = sp.simplify(sp.diff(anti, t) - sp.exp(-sp.I * (al + t * be)))
+    closed = sp.exp(-sp.I * (al + be / 2)) * sp.sin(be / 2) / (be / 2)
+    d2 = sp.simplify(((anti.subs(t, 1) - anti.subs(t, 0)) - closed).rewrite(sp.exp))
+    chk.record("lemma:edge_integral_closed_form", fkey, "proved" if d1 == 0 and d2 == 0 else "refuted", "sympy-differentiation",
+               detail="d/dt of the antiderivative is the integrand, and F(1) - F(0) == exp(-i(a + b/2)) sin(b/2)/(b/2)  (b != 0; both sides -> "
+                      "exp(-i a) as b -> 0)", model={})
+
+
+def polygon_ff(chk):
+    """Polygon.compute_form_factor_amplitude on a symbolic number of vertices and of wave vectors, any plane (unit normal n), any
+    orientation of the listed vertices; signed_area / area / centroid by their contracts (C04)."""
+    import numpy as np
+    from pyvc.sym import Sym
+    from pyvc.symnp import np as snp
+    from pyvc.oblig import normal_form
+    from pyvc import paths
+    from . import mutators as M
+    ld = chk.loader()
+    shapes = ld.load("coxeter.shapes")
+    fkey = chk.function("coxeter.shapes.polygon", "Polygon.compute_form_factor_amplitude")
+    stokes_lemmas(chk, fkey)
+    NV = M.NV
+    A = sp.Symbol("A_signed", real=True)
+    cen = [sp.Symbol(f"cen{j}", real=True) for j in range(3)]
+    nm = [sp.Symbol(f"nm{j}", real=True) for j in range(3)]
+    rho = sp.Symbol("rho", real=True)
+    qf = sp.Function("qv", real=True)
+
+    def run():
+        klass = shapes.Polygon
+        sub = type("Polygon", (klass,), {"signed_area": property(lambda self: Sym(A)), "area": property(lambda self: Sym(sp.Abs(A))),
+                                         "centroid": property(lambda self: np.array([Sym(x) for x in cen], dtype=object))})
+        o = object.__new__(sub)
+        o._vertices = make("Vm", (NV, 3))
+        o._normal = np.array([Sym(x) for x in nm], dtype=object)
+        return o.compute_form_factor_amplitude(make("qv", (QD, 3)), density=Sym(rho))
+
+    def flux_sum(variant="spec"):
+        """sum over the edges of the flux of G through the edge, G built for the projected wave vector (independent of the code:
+        nu = e x n is the outward normal times the length of an edge of a polygon listed counter-clockwise about n)"""
+        V, Q = make("Vm", (NV, 3)), make("qv", (QD, 3))
+        n = np.array([Sym(x) for x in nm], dtype=object)
+        qp = Q - snp.dot(Q, n)[:, None] * n
+        q2 = snp.sum(qp * qp, axis=-1)
+        Vs = snp.roll(V, axis=0, shift=-1)
+        E, Mi = Vs - V, (V + Vs) / 2
+        nu = snp.cross(E, n)
+        arg = 0.5 * snp.inner(E, qp) / snp.pi
+        if variant == "canary":
+            arg = snp.inner(E, qp) / snp.pi
+        S = 1j * snp.inner(nu, qp) / q2 * snp.sinc(arg) * snp.exp(-1j * snp.inner(Mi, qp))
+        return snp.sum(S, axis=0)
+    facts = NV.facts() + QD.facts()
+    spec_e = to_expr(paths.explore(flux_sum, assumptions=facts)[0].value.inner[()])
+    canary_e = to_expr(paths.explore(lambda: flux_sum("canary"), assumptions=facts)[0].value.inner[()])
+    qk = [qf(QD.k, sp.Integer(j)) for j in range(3)]
+    qn = sum(qk[j] * nm[j] for j in range(3))
+    qp = [qk[j] - qn * nm[j] for j in range(3)]
+    for p in chk.explore(fkey, run, assumptions=facts):
+        if p.kind != "return":
+            chk.path_raised(fkey, p)
+            continue
+        t = path_tag(p)
+        res = p.value
+        ok = isinstance(res, SymArr) and res.axes == (QD,)
+        chk.record(f"Polygon.ff:one_value_per_wave_vector[{t}]", fkey, "proved" if ok else "refuted", "shape", model={})
+        if not ok:
+            continue
+        parts = _split_masked(to_expr(res.inner[()]))
+        if parts is None:
+            chk.record(f"Polygon.ff:branch_structure[{t}]", fkey, "unknown", "structure", detail=str(to_expr(res.inner[()]))[:200], model={})
+            continue
+        (val_small, cond_small), val_big, cond_big = parts
+        compl = sp.simplify_logic(sp.Equivalent(cond_small, sp.Not(cond_big))) is sp.true or cond_small == sp.Not(cond_big) or \
+            (isinstance(cond_small, sp.StrictLessThan) and isinstance(cond_big, sp.GreaterThan) and cond_small.lhs == cond_big.lhs and cond_small.rhs == cond_big.rhs)
+        chk.record(f"Polygon.ff:every_wave_vector_is_on_exactly_one_branch[{t}]", fkey, "proved" if compl else "refuted", "structure",
+                   detail=f"small: {str(cond_small)[:120]}", model={})
+        d = normal_form(val_big - rho * sp.sign(A) * spec_e)
+        chk.record(f"Polygon.ff:large_q_branch_is_the_boundary_flux_of_G[{t}]", fkey, "proved" if d == 0 else "refuted", "sigma-normal-form",
+                   detail="value == density * sign(signed area) * sum over edges of i (q_p.(e x n))/|q_p|^2 sinc(q_p.e/2) exp(-i q_p.m), q_p the wave vector "
+                          "projected into the plane" if d == 0 else f"difference: {str(d)[:300]}", model={}, replay=_replay_polygon_ff(), abstracted=(d != 0),
+                   goal="F == rho sign(A) sum_e flux_e(G)")
+        dc = normal_form(val_big - rho * sp.sign(A) * canary_e)
+        chk.canaries.append({"name": f"canary:polygon_ff_with_sinc_of_the_full_edge_phase[{t}]", "function": fkey, "result": "differs" if dc != 0 else "equal", "ok": dc != 0})
+        if dc == 0:
+            chk.errors.append("canary polygon_ff_with_sinc_of_the_full_edge_phase was proved: the verifier is unsound or vacuous")
+        want_small = rho * sp.Abs(A) * sp.exp(-sp.I * sum(qp[j] * cen[j] for j in range(3)))
+        ds = normal_form(sp.expand(val_small) - sp.expand(want_small))
+        if ds != 0:
+            ds = sp.simplify(val_small / want_small) - 1
+        chk.record(f"Polygon.ff:small_q_branch_is_area_times_phase_about_the_centroid[{t}]", fkey, "proved" if ds == 0 else "refuted", "sympy-normal-form",
+                   detail="" if ds == 0 else str(ds)[:200], model={}, replay=_replay_polygon_ff(), abstracted=(ds != 0))
+        lin = normal_form(val_big - rho * val_big.subs(rho, 1))
+        chk.record(f"Polygon.ff:density_linear[{t}]", fkey, "proved" if lin == 0 else "refuted", "sympy-normal-form", model={},
+                   replay=_replay_polygon_ff(), abstracted=(lin != 0))
+
+
+def polyhedron_ff(chk):
+    """Polyhedron.compute_form_factor_amplitude (inherited by ConvexPolyhedron) on a symbolic number of faces and wave vectors:
+    modular -- the face polygons are replaced by the contract of Polygon.compute_form_factor_amplitude (proved above: the Fourier
+    integral over the face with the wave vector projected into its plane), volume / centroid by their contracts (C02), the stored
+    planes (n_f, -d_f) are any rows (that they are the faces' outward unit planes is the class invariant, C02 / C07)."""
+    import numpy as np
+    from pyvc.sym import Sym
+    from pyvc.symnp import np as snp
+    from pyvc.oblig import normal_form
+    from pyvc import paths
+    from . import polyhedron_state as H
+    ld = chk.loader()
+    shapes = ld.load("coxeter.shapes")
+    pm = ld.load("coxeter.shapes.polyhedron")
+    fkey = chk.function("coxeter.shapes.polyhedron", "Polyhedron.compute_form_factor_amplitude")
+    # (L3) on a face in the plane n.r = d:  q.r = q_p.r + (q.n) d  with q_p = q - (q.n) n  (|n| = 1)
+    qs, ns, rs = sp.symbols("q0:3", real=True), sp.symbols("n0:3", real=True), sp.symbols("r0:3", real=True)
+    qn = sum(a * b for a, b in zip(qs, ns))
+    qp = [qs[j] - qn * ns[j] for j in range(3)]
+    lhs = sum(a * b for a, b in zip(qs, rs)) - sum(a * b for a, b in zip(qp, rs)) - qn * sum(a * b for a, b in zip(ns, rs))
+    chk.record("lemma:phase_on_a_face_splits_into_in_plane_phase_and_plane_offset", fkey, "proved" if sp.expand(lhs) == 0 else "refuted",
+               "sympy-normal-form", detail="q.r - q_p.r - (q.n)(n.r) == 0", model={})
+    Ff = sp.Function("Fface")
+    rho, V0 = sp.Symbol("rho", real=True), sp.Symbol("Vol", positive=True)
+    cen = [sp.Symbol(f"cen{j}", real=True) for j in range(3)]
+    built = []
+
+    class PolyStub:
+        def __init__(self, vertices, normal=None, **k):
+            built.append((vertices, normal, k))
+
+        def compute_form_factor_amplitude(self, q, density=1.0):
+            built.append(("ff", q, density))
+            # contract of Polygon.compute_form_factor_amplitude: density times the transform of the face (linear in the density)
+            dens = to_expr(density)
+            return SymArr((QD,), np.array(Sym(dens * Ff(H.F.k, QD.k)), dtype=object), getattr(q, "guard", None))
+
+    def run():
+        built.clear()
+        o = H.polyhedron(shapes)
+        o._equations = make("eqh", (H.F, 4))
+        o.__class__ = type("Polyhedron", (type(o),), {"volume": property(lambda s_: Sym(V0)),
+                                                       "centroid": property(lambda s_: np.array([Sym(x) for x in cen], dtype=object))})
+        old = pm.Polygon
+        pm.Polygon = PolyStub
+        try:
+            return o.compute_form_factor_amplitude(make("qv", (QD, 3)), density=Sym(rho)), list(built), o._vertices, o._faces
+        finally:
+            pm.Polygon = old
+
+    def flux_sum():
+        Q, EQ = make("qv", (QD, 3)), make("eqh", (H.F, 4))
+        Fa = SymArr((H.F, QD), np.array(Sym(Ff(H.F.k, QD.k)), dtype=object))
+        nq = snp.inner(EQ[:, :3], Q)                       # (F, Q): q.n_f
+        q2 = snp.sum(Q * Q, axis=-1)
+        d = -EQ[:, 3]
+        S = 1j * nq / q2 * Fa * snp.exp(-1j * nq * d[:, None])
+        return snp.sum(S, axis=0)
+    facts = H.facts() + QD.facts()
+    spec_e = to_expr(paths.explore(flux_sum, assumptions=facts)[0].value.inner[()])
+    qf = sp.Function("qv", real=True)
+    qk = [qf(QD.k, sp.Integer(j)) for j in range(3)]
+    for p in chk.explore(fkey, run, assumptions=facts):
+        if p.kind != "return":
+            chk.path_raised(fkey, p)
+            continue
+        t = path_tag(p)
+        res, calls, verts, faces = p.value
+        ok = isinstance(res, SymArr) and res.axes == (QD,)
+        chk.record(f"Polyhedron.ff:one_value_per_wave_vector[{t}]", fkey, "proved" if ok else "refuted", "shape", model={})
+        if not ok:
+            continue
+        e = to_expr(res.inner[()])
+        pws = [x for x in sp.preorder_traversal(e) if isinstance(x, sp.Piecewise)]
+        conds = {c for x in pws for _, c in x.args if c is not sp.true}
+        small = [c for c in conds if isinstance(c, sp.StrictLessThan)]
+        big = [c for c in conds if isinstance(c, sp.GreaterThan)]
+        good = len(small) == 1 and len(big) == 1 and small[0].lhs == big[0].lhs and small[0].rhs == big[0].rhs
+        chk.record(f"Polyhedron.ff:every_wave_vector_is_on_exactly_one_branch[{t}]", fkey, "proved" if good else "unknown", "structure",
+                   detail=str(sorted(map(str, conds)))[:200], model={})
+        if not good:
+            continue
+        on_big = e.xreplace({small[0]: sp.false, big[0]: sp.true})
+        on_small = e.xreplace({small[0]: sp.true, big[0]: sp.false})
+        d = normal_form(on_big - rho * spec_e)
+        chk.record(f"Polyhedron.ff:large_q_branch_is_the_sum_over_faces_of_the_flux_of_G[{t}]", fkey, "proved" if d == 0 else "refuted", "sigma-normal-form",
+                   detail="value == density * sum over faces of i (q.n_f)/|q|^2 F_face(q) exp(-i (q.n_f) d_f)" if d == 0 else f"difference: {str(d)[:300]}",
+                   model={}, replay=_replay_polyhedron_ff(), abstracted=(d != 0), goal="F == rho sum_f i (q.n_f)/q^2 F_f exp(-i q.n_f d_f)")
+        ds = normal_form(sp.expand(on_small) - sp.expand(rho * V0 * sp.exp(-sp.I * sum(qk[j] * cen[j] for j in range(3)))))
+        chk.record(f"Polyhedron.ff:small_q_branch_is_volume_times_phase_about_the_centroid[{t}]", fkey, "proved" if ds == 0 else "refuted",
+                   "sympy-normal-form", detail="" if ds == 0 else str(ds)[:200], model={}, replay=_replay_polyhedron_ff(), abstracted=(ds != 0))
+        # the face polygon is built from the face's vertices and the normal of its stored plane, and asked for the same wave vectors
+        ctor = [c for c in calls if c[0] != "ff"]
+        asks = [c for c in calls if c[0] == "ff"]
+        okc = len(ctor) == 1 and len(asks) == 1
+        if okc:
+            vv, nn, _ = ctor[0]
+            want_v = verts[faces.elem] if hasattr(faces, "elem") else None
+            same_v = isinstance(vv, SymArr) and want_v is not None and vv.axes == want_v.axes and \
+                all(to_expr(a) == to_expr(b) for a, b in zip(vv.inner.reshape(-1), want_v.inner.reshape(-1)))
+            eqf = sp.Function("eqh", real=True)
+            same_n = nn is not None and [to_expr(x) for x in np.asarray(nn, dtype=object).reshape(-1)] == [eqf(H.F.k, sp.Integer(j)) for j in range(3)]
+            qarg = asks[0][1]
+            same_q = isinstance(qarg, SymArr) and qarg.axes == (QD, 3) and [to_expr(x) for x in qarg.inner.reshape(-1)] == qk and \
+                (qarg.guard == big[0] or sp.simplify_logic(sp.Equivalent(qarg.guard, big[0])) is sp.true)
+            okc = same_v and same_n and same_q
+        chk.record(f"Polyhedron.ff:face_polygon_has_the_faces_vertices_and_plane_normal_and_gets_the_large_wave_vectors[{t}]", fkey,
+                   "proved" if okc else "refuted", "call-trace", detail=f"{len(ctor)} constructions, {len(asks)} calls per face", model={},
+                   replay=_replay_polyhedron_ff(), abstracted=True)
+        lin = normal_form(on_big - rho * on_big.subs(rho, 1))
+        chk.record(f"Polyhedron.ff:density_linear[{t}]", fkey, "proved" if lin == 0 else "refuted", "sympy-normal-form", model={},
+                   replay=_replay_polyhedron_ff(), abstracted=(lin != 0))
+
+
+def _replay_polyhedron_ff():
+    """real code against the closed-form transform of boxes (product of sinc) for a placed box and a non-convex L prism (two boxes)"""
+    def replay(model):
+        import numpy as np
+        from .common import real_coxeter
+        cox = real_coxeter()
+
+        def box_ft(q, lo, hi):
+            out = 1.0 + 0j
+            for j in range(3):
+                a, b = lo[j], hi[j]
+                out *= (b - a) if abs(q[j]) < 1e-14 else (np.exp(-1j * q[j] * a) - np.exp(-1j * q[j] * b)) / (1j * q[j])
+            return out
+        Q = np.array([[0.3, -0.2, 0.5], [2.0, 1.0, -1.5], [0.0, 3.0, 0.4], [1.0, 0.0, 0.0], [5.0, -4.0, 3.0]])
+        lo, hi = np.array([1.0, -2.0, 0.5]), np.array([2.5, -1.0, 3.5])
+        V = np.array([[x, y, z] for x in (lo[0], hi[0]) for y in (lo[1], hi[1]) for z in (lo[2], hi[2])])
+        for klass in ("ConvexPolyhedron", "Polyhedron"):
+            try:
+                cp = cox.shapes.ConvexPolyhedron(V)
+                shape = cp if klass == "ConvexPolyhedron" else cox.shapes.Polyhedron(np.asarray(cp.vertices), [list(map(int, f)) for f in cp.faces])
+                got = np.asarray(shape.compute_form_factor_amplitude(Q.copy(), density=2.0))
+            except Exception as e:  # noqa: BLE001
+                return True, {"class": klass, "vertices": V.tolist(), "raised": f"{type(e).__name__}: {e}"[:200]}
+            for q, g in zip(Q, got):
+                want = 2.0 * box_ft(q, lo, hi)
+                if abs(g - want) > 1e-8 * 2.0 * float(np.prod(hi - lo)):
+                    return True, {"class": klass, "vertices": V.tolist(), "q": q.tolist(), "density": 2.0, "form_factor": [float(g.real), float(g.imag)],
+                                  "fourier_integral_of_the_box": [float(want.real), float(want.imag)]}
+        return False, {}
+    return replay
+
+
+def _replay_polygon_ff():
+    """real code against Gauss quadrature of the Fourier integral over a fan triangulation: an L-shaped hexagon in a tilted plane off
+    the origin, listed counter-clockwise and clockwise from every start vertex, wave vectors with out-of-plane parts"""
+    def replay(model):
+        import numpy as np
+        from .bounded_c12 import ft_triangle2
+        from .common import real_coxeter
+        cox = real_coxeter()
+        L = np.array([[0.0, 0], [3, 0], [3, 1], [1, 1], [1, 3], [0, 3]])
+        th = 0.7
+        e1 = np.array([np.cos(th), np.sin(th), 0.0])
+        e2 = np.cross(np.array([0.2, -0.3, 0.9]) / np.linalg.norm([0.2, -0.3, 0.9]), e1)
+        e2 /= np.linalg.norm(e2)
+        nrm = np.cross(e1, e2)
+        off = np.array([1.5, -0.7, 2.0])
+        Q = np.array([[0.3, -0.2, 0.5], [2.0, 1.0, -1.5], [0.0, 3.0, 0.4], [1.0, 0.0, 0.0], [5.0, -4.0, 3.0]])
+        for orient in (1, -1):
+            base = L if orient == 1 else L[::-1]
+            for k in range(len(L)):
+                p2 = np.roll(base, -k, axis=0)
+                P3 = np.outer(p2[:, 0], e1) + np.outer(p2[:, 1], e2) + off
+                try:
+                    got = np.asarray(cox.shapes.Polygon(P3, normal=nrm).compute_form_factor_amplitude(Q.copy(), density=2.0))
+                except Exception as e:  # noqa: BLE001
+                    return True, {"vertices": P3.tolist(), "raised": f"{type(e).__name__}: {e}"[:200]}
+                for q, g in zip(Q, got):
+                    qpar = q - np.dot(q, nrm) * nrm
+                    q2 = np.array([np.dot(qpar, e1), np.dot(qpar, e2)])
+                    val = 2.0 * sum(ft_triangle2(q2, L[0], L[i], L[i + 1]) for i in range(1, len(L) - 1)) * np.exp(-1j * np.dot(qpar, off))
+                    if abs(g - val) > 1e-7 * 5.0 * 2.0:
+                        return True, {"vertices": P3.tolist(), "normal": nrm.tolist(), "listed": "ccw" if orient == 1 else "cw", "q": q.tolist(), "density": 2.0,
+                                      "form_factor": [float(g.real), float(g.imag)], "fourier_integral": [float(val.real), float(val.imag)]}
+        return False, {}
+    return replay
+
+
 def run(chk):
     chk.trusted += ["float64 arithmetic treated as exact real arithmetic",
+                    "divergence theorem for a polyhedron with outward unit face normals (the integral of div G over the solid is the sum over the faces of "
+                    "the flux of G), with the class invariant that the stored planes are the faces' outward unit planes (C02 / C07)",
+                    "divergence (Green / Stokes) theorem in the plane of a simple polygon: the integral of div G over the polygon is the sum over its "
+                    "edges of the flux of G through the edge, with nu = e x n the outward normal times length for vertices listed "
+                    "counter-clockwise about n (and its negative for clockwise listing: sign of the signed area, C04)",
                     "the Fourier transform of a ball of radius R at c is 4 pi (sin qR - qR cos qR)/q^3 exp(-i q.c) (closed form, mathematics)",
                     "exp, sin, cos are uninterpreted; sinc(x) = sin(x)/x; conjugation of exp(-i x) for real x"]
     sphere(chk)
+    chk.section("Polygon.compute_form_factor_amplitude", "coxeter.shapes.polygon::Polygon.compute_form_factor_amplitude", lambda: polygon_ff(chk))
+    chk.section("Polyhedron.compute_form_factor_amplitude", "coxeter.shapes.polyhedron::Polyhedron.compute_form_factor_amplitude", lambda: polyhedron_ff(chk))
     from .bounded_c12 import run_bounded
     run_bounded(chk)
